@@ -14,6 +14,9 @@ def _IFFIRST(t):
     return [("MCQueryGen_iffirst%s.cfg" % ("" if t == "quick" else "_t"), None, {"cap": {"quick": 300, "thorough": 1500}})]
 
 
+# several aggregates and plain literals side by side in one row (a floating Sum, a Count, a 0)
+_AGGROWS = [("MCQueryGen_aggrows.cfg", None, {"cap": {"quick": 160, "thorough": 160}})]
+
 # columns whose element type is fixed by a declaration (tree type, enum, bool, float) as elements of vector columns
 _TREETYPES = [("MCQueryGen_treetypesvec.cfg", None, {"md10": True, "cap": {"quick": 150, "thorough": 1200}})]
 
@@ -84,8 +87,8 @@ SPECS = {
     "C03": pcheck.PSpec(
         "C03",
         clauses=["SchemaMatches", "StorageDistinct", "DescriptorMatches", "Accepts", "Refuses", "RowsMatch", "Compiles", "BookingFault"],
-        profiles={"quick": [("MCQueryGen_schema.cfg", None)] + _ROWS("quick") + _TREETYPES,
-                  "thorough": [("MCQueryGen_schema_t.cfg", None)] + _ROWS("thorough") + _TREETYPES},
+        profiles={"quick": [("MCQueryGen_schema.cfg", None)] + _ROWS("quick") + _TREETYPES + _AGGROWS,
+                  "thorough": [("MCQueryGen_schema_t.cfg", None)] + _ROWS("thorough") + _TREETYPES + _AGGROWS},
         events={"quick": 6, "thorough": 12},
         cap={"quick": 1200, "thorough": 6000},
     ),
@@ -167,9 +170,9 @@ SPECS = {
         "C13",
         clauses=["Accepts", "RowsMatch", "SchemaMatches", "SpuriousFault", "Compiles", "BookingFault"],
         profiles={"quick": [("MCQueryGen_arithtable.cfg", None), ("MCQueryGen_arith.cfg", None),
-                            ("MCQueryGen_arithif.cfg", None, {"cap": {"quick": 330, "thorough": 2000}})] + _INTDIV("quick"),
+                            ("MCQueryGen_arithif.cfg", None, {"cap": {"quick": 330, "thorough": 2000}})] + _INTDIV("quick") + _AGGROWS,
                   "thorough": [("MCQueryGen_arithtable.cfg", None), ("MCQueryGen_arith.cfg", None),
-                               ("MCQueryGen_arithif_t.cfg", None, {"cap": {"quick": 330, "thorough": 2000}})] + _INTDIV("thorough")},
+                               ("MCQueryGen_arithif_t.cfg", None, {"cap": {"quick": 330, "thorough": 2000}})] + _INTDIV("thorough") + _AGGROWS},
         events={"quick": 8, "thorough": 16},
         cap={"quick": 2100, "thorough": 9000},
     ),
